@@ -75,6 +75,7 @@ def sortDedup (xs : List String) : List String := xs.foldr insSorted []
 structure Core where
   m : State
   t : Tables := {}
+  handles : List (String × Reader) := []     -- readers held open by the harness
 
 /-- the accounting token the harness appends to every mutating operation when the memory cache is on:
 TotalBytes/NumEntries as reported, bytes/number of the entries present -/
@@ -154,6 +155,16 @@ def step1 (c : Core) (kind : String) (args : List String) : Option (Core × List
   | "op", ["unblock", p] =>
     let (m, r) := unblock c.m p
     some ({ c with m }, [resTok r], s!"unblock.{resTok r}")
+  | "op", ["open", n, h] =>
+    match openReader c.m n with
+    | some r => some ({ c with handles := (h, r) :: c.handles.filter (·.1 ≠ h) }, ["ok"], if inMem c.m n then "open.mem" else "open.disk")
+    | none => some (c, ["notexist"], "open.notexist")
+  | "op", ["readh", h] =>
+    match c.handles.find? (·.1 = h) with
+    | some (_, r) =>
+      let stale := readable c.m r.name ≠ some r.bytes
+      some ({ c with handles := c.handles.filter (·.1 ≠ h) }, [bytesTok (r.readAll c.m)], if stale then "readh.after-change" else "readh.current")
+    | none => some (c, ["nohandle"], "readh.nohandle")
   | "op", ["probe", n] =>
     let o := probeObs c.m n
     let br := (if inMem c.m n then "probe.mem" else if (readable c.m n).isSome then "probe.disk" else "probe.absent") ++
